@@ -202,6 +202,7 @@ def check(prop, tier, seed):
     findings, drift, nexec, nevents, accepted_exec = [], [], 0, 0, 0
     sample = None
     api_findings = []
+    sweep_findings = []
     for pname, pr in pres["profiles"].items():
         if not pr["built"]:
             infra.append("harness does not build for profile %s: %s" % (pname, pr["build_log"][-600:]))
@@ -227,6 +228,28 @@ def check(prop, tier, seed):
             for f in run["findings"]:
                 if f[0] == prop:
                     findings.append((pname, sname, run, f))
+    # 2b. the state-count sweep (shared with C14, cached per tree): this property's monitor at 25 (quick) / 255 (thorough) state counts
+    sweep_cov = {}
+    if spec.get("pool", True) and prop != "C14":
+        sw = matrix.extra_c14(tier, seed)
+        for i in sw.get("infra", []):
+            infra.append("state-count sweep: " + i)
+        sweep_cov = {"sweep_state_counts": sw.get("coverage", {}).get("state_counts_swept", []), "sweep_events": sw.get("coverage", {}).get("sweep_events", 0)}
+        seenN = set()
+        for of in sw.get("other_findings", []):
+            if of["property"] != prop or of["N"] in seenN or len(seenN) >= 3:
+                continue
+            seenN.add(of["N"])
+            d = of["replay"]
+            shutil.rmtree(d, ignore_errors=True)
+            vlib.ensure(d)
+            for src, dst in ((of["script"], "script.txt"), (of["trace"], "trace.tlc.ndjson")):
+                if os.path.exists(src):
+                    shutil.copy(src, os.path.join(d, dst))
+            with open(os.path.join(d, "finding.json"), "w") as f:
+                json.dump({"property": prop, "profile": "n%d" % of["N"], "profile_def": of["profile_def"], "finding": {"line": of["line"], "why": of["why"]},
+                           "how": "bin/check replay " + d}, f, indent=1)
+            sweep_findings.append({"what": "N=%d (state-count sweep) line %d: %s" % (of["N"], of["line"], of["why"]), "signature": "sweep N=%d %s" % (of["N"], of["why"][:60]), "replay": d})
     # 3. property-specific machinery
     extra_cov, extra_findings = {}, []
     if prop in EXTRA:
@@ -262,7 +285,7 @@ def check(prop, tier, seed):
         vlib.log("FINDING property=%s profile=%s: %s" % (prop, pname, what))
         vlib.log("VIOLATION property=%s replay=%s" % (prop, d))
         violations += 1
-    for idx, ef in enumerate(extra_findings[:5]):
+    for idx, ef in enumerate((sweep_findings + extra_findings)[:6]):
         if any(k.get("property") == prop and k.get("signature") == ef.get("signature") for k in knownlist):
             vlib.log("KNOWN-FINDING: property=%s %s" % (prop, ef.get("signature")))
             continue
@@ -293,6 +316,7 @@ def check(prop, tier, seed):
         "api_form_fallback_builds": sorted(n for n, pr in pres["profiles"].items() if pr.get("compat")),
     }
     cov.update(extra_cov)
+    cov.update(sweep_cov)
     vlib.write_evidence(prop, tier, seed, LEVEL.get(prop, "model_checking"), cov, time.time() - t0, violations,
                         assumptions=ASSUME.get(prop, []) + COMMON_ASSUME)
     if infra:
